@@ -104,6 +104,9 @@ func genC10(g *Gen) {
 				}
 				g.do(Step{Op: "Filter", Recv: f, Clause: &cl})
 				g.continuation(len(g.x.frames) - 1)
+				if g.rng.Intn(3) == 0 {
+					g.validAfterInvalid(f, s)
+				}
 				g.end()
 			}
 		}
